@@ -39,7 +39,7 @@ def opOfJson (op : String) (a : Json) : Option (Op Res4) :=
   | "create" =>
     let inc : List String := (jarr (jget a "includes")).map jstr
     let plan : List (String × List Res4) := (jarr (jget a "plan")).map (fun p => (jstr (jget p "node"), (jarr (jget p "res")).map resOfJson))
-    some (.create ⟨inc, jbool (jget a "planOk"), plan⟩)
+    some (.create ⟨inc, jbool (jget a "noNodes"), jbool (jget a "planOk"), plan⟩)
   | "remove" => some (.remove (jstr (jget a "first")) (groupsOfJson (jget a "groups")))
   | "dissociate" => some (.dissociate (jstr (jget a "first")) (groupsOfJson (jget a "groups")))
   | "realloc" =>
